@@ -231,10 +231,51 @@ def work(tier, seed):
     for kind in kinds:
         units.append({"cfg": mk_cfg(kind, 1, 1, SHAPES2, seed), "poison": True, "depth": 3 if tier == "quick" else 4})
         units.append({"cfg": mk_cfg(kind, 1, 2, SHAPES2, seed), "poison": True, "depth": 4 if tier == "quick" else 5})
+    # bias correction that is exactly zero in float32 (beta2 = 1 - 1e-8): the bias-corrected factor is not finite
+    for freq in (1, 2):
+        units.append({"bc_zero": True, "depth": 2 if tier == "quick" else 3, "cfg": seq.cfg_with(shapes=SHAPES2, max_dim=4, merge=True, freq=freq, start=freq, betas=[0.0, 1.0 - 1e-8], bias_corr=True, lr=0.125, eps=1e-1, seed=seed, precond=["shampoo", {"tol": 1}])})
     # computed root finite in the preconditioner dtype but overflowing the storage (parameter) dtype
     for freq in (1, 2):
         units.append({"overflow": True, "depth": 2 if tier == "quick" else 3, "cfg": seq.cfg_with(shapes=SHAPES2, max_dim=4, merge=True, freq=freq, start=freq, betas=[0.0, 1.0], pdtype="f32", prec_dtype="f64", eps=1e-80, lr=0.125, seed=seed, precond=["shampoo", {"tol": 1}])})
     return units
+
+
+def run_bc_zero(cfg, hist):
+    """beta2 = 1 - 1e-8 with bias correction: the float32 bias correction 1 - beta2^t is exactly 0, so the matrix whose root
+    is taken (factor / bias_correction) is non-finite although every gradient and the raw factor are finite -> every
+    refresh with a gradient must raise PreconditionerValueError before any parameter is modified."""
+    import torch
+    from distributed_shampoo.shampoo_types import PreconditionerValueError
+
+    params, opt = seq.build(cfg)
+    model = Model(cfg)
+    msgs, digests = [], []
+    for ti, mask in enumerate(hist):
+        seq.set_grads(params, cfg, ti, mask)
+        before_p = [p.detach().clone() for p in params]
+        refresh = bool(model.refreshing_blocks(mask))
+        model.apply(mask, None)
+        raised = None
+        try:
+            opt.step()
+        except PreconditionerValueError:
+            raised = "value"
+        except Exception as e:
+            raised = f"{type(e).__name__}: {str(e)[:80]}"
+        want = "value" if refresh else None
+        where = f"zero bias correction run, step {ti} mask {mask}"
+        if raised != want:
+            msgs.append(f"{where}: raised {raised}, expected {want} (factor / bias_correction is not finite)")
+        if raised is not None and any(not bit_equal(p.detach(), b) for p, b in zip(params, before_p)):
+            msgs.append(f"{where}: a parameter was modified although the step raised")
+        for b in range(len(params)):
+            for f, m in enumerate(stored(opt, params, b, False)):
+                if not torch.isfinite(m).all():
+                    msgs.append(f"{where}: stored inverse root {f} of block {b} is not finite")
+        digests.append(common.h64(seq.visible_digest(opt, params)))
+        if msgs:
+            break
+    return msgs[:3], digests
 
 
 def run_overflow(cfg, hist):
@@ -461,7 +502,13 @@ def run_unit(unit):
                 case.update(extra)
             res["violations"].append({"case": case, "msg": f"{msgs[0]} [{cfg['precond']} freq={cfg['freq']}]", "kind": msgs[0].split(":")[-1][:30]})
 
-    if unit.get("overflow"):
+    if unit.get("bc_zero"):
+        for h in itertools.product(seq.all_masks(2), repeat=unit["depth"]):
+            hist = [list(m) for m in h]
+            msgs, digests = run_bc_zero(cfg, hist)
+            res["stats"]["bc_zero_runs"] = res["stats"].get("bc_zero_runs", 0) + 1
+            record(hist, msgs, digests, {"bc_zero": True})
+    elif unit.get("overflow"):
         for h in itertools.product(seq.all_masks(2), repeat=unit["depth"]):
             hist = [list(m) for m in h]
             msgs, digests = run_overflow(cfg, hist)
@@ -512,6 +559,8 @@ def run_unit(unit):
 
 
 def replay(case):
+    if case.get("bc_zero"):
+        return run_bc_zero(case["cfg"], case["hist"])[0]
     if case.get("overflow"):
         return run_overflow(case["cfg"], case["hist"])[0]
     p = case.get("poison")
